@@ -533,4 +533,6 @@ def replay(doc):
         print("VIOLATION %s: %s" % (sig, msg))
     if not viol:
         print("no violation")
-    return 1 if hit or viol else 0
+    # (another signature of the same execution - e.g. a recorded finding -
+    # is printed above but is not the violation of this replay file)
+    return 1 if hit else 0
